@@ -34,7 +34,10 @@ Init == /\ tid \in 1..Len(Traces) /\ l = 1 /\ bad = {}
                 ridof |-> [i \in Ids |-> <<>>],          \* position -> reply identity of its last failure
                 infl |-> {}, stored |-> {}, due |-> [i \in Ids |-> 0], flushed |-> {},
                 exp |-> [i \in Ids |-> {}], made |-> [i \in Ids |-> {}], enq |-> [i \in Ids |-> {}],
-                flushing |-> FALSE, sinceflush |-> {}, flushret |-> FALSE, lastAttEnd |-> [i \in Ids |-> 0]]
+                flushing |-> FALSE, sinceflush |-> {}, flushret |-> FALSE, lastAttEnd |-> [i \in Ids |-> 0],
+                \* the bookkeeping after a failed attempt is still going on (the message is not back on the timetable yet):
+                \* "ts" until set_timestamp, "marks" until set_recipients_delivered (per-recipient results)
+                book |-> [i \in Ids |-> "none"]]
 
 All(i) == 1..Q.n[i]
 Settled(i) == Q.ok[i] \cup Q.failed[i]
@@ -51,18 +54,19 @@ EvStore ==
                               !.stored = @ \cup {E.id}, !.due[E.id] = E.ts]
             /\ bad' = bad
        [] E.op = "remove" /\ Known(E.id) ->
-            /\ Q' = [Q EXCEPT !.stored = @ \ {E.id}]
+            /\ Q' = [Q EXCEPT !.stored = @ \ {E.id}, !.book[E.id] = "none"]
             \* a message leaves storage only on a final disposition of every recipient
             /\ bad' = bad \cup Flag("C01_RemovedOnlyWhenSettled", E.id \in Q.acc => Outstanding(E.id) = {})
        [] E.op = "set_timestamp" /\ Known(E.id) ->
-            /\ Q' = [Q EXCEPT !.due[E.id] = E.ts, !.flushed = @ \ {E.id}]
+            /\ Q' = [Q EXCEPT !.due[E.id] = E.ts, !.flushed = @ \ {E.id}, !.book[E.id] = IF @ = "ts" THEN "none" ELSE @]
             /\ bad' = bad
        [] E.op = "get" /\ Known(E.id) ->
             /\ Q' = Q
             \* what the store hands back for the next attempt: every outstanding recipient, no settled one
             /\ bad' = bad \cup Flag("C01_GetListsOutstanding", E.id \in Q.acc => Outstanding(E.id) \subseteq Range(E.rcpts))
        [] E.op = "set_recipients_delivered" /\ Known(E.id) ->
-            /\ Q' = [Q EXCEPT !.lastAttEnd[E.id] = 2]     \* marks of the last partial round are stored from here on
+            /\ Q' = [Q EXCEPT !.lastAttEnd[E.id] = 2,     \* marks of the last partial round are stored from here on
+                              !.book[E.id] = IF @ = "marks" THEN "none" ELSE @]
             /\ bad' = bad
        [] E.op = "load" ->
             /\ Q' = [Q EXCEPT !.stored = @ \cup {E.entries[k][2] : k \in 1..Len(E.entries)}]
@@ -99,7 +103,8 @@ EvAttEnd ==
          newexp == IF Q.sender[i] = 1 /\ permS # {} THEN Groups(i, permS, ridmap) ELSE {}
      IN /\ Q' = [Q EXCEPT !.infl = @ \ {i}, !.ok[i] = @ \cup okS, !.failed[i] = @ \cup permS, !.temp[i] = tempS,
                           !.ridof[i] = ridmap, !.exp[i] = @ \cup newexp,
-                          !.lastAttEnd[i] = IF tempS # {} /\ (okS \cup permS) # {} THEN 1 ELSE 0]
+                          !.lastAttEnd[i] = IF tempS # {} /\ (okS \cup permS) # {} THEN 1 ELSE 0,
+                          !.book[i] = IF tempS = {} THEN "none" ELSE IF E.kind \in {"map", "seq", "rmap"} THEN "marks" ELSE "ts"]
         /\ bad' = bad
 
 EvBackoff ==
@@ -107,7 +112,7 @@ EvBackoff ==
   /\ IF ~Known(E.id) THEN Q' = Q /\ bad' = bad
      ELSE LET i == E.id IN
           IF E.wait = -1
-          THEN /\ Q' = [Q EXCEPT !.failed[i] = @ \cup Q.temp[i], !.temp[i] = {},
+          THEN /\ Q' = [Q EXCEPT !.failed[i] = @ \cup Q.temp[i], !.temp[i] = {}, !.book[i] = "none",
                                  !.exp[i] = @ \cup (IF Q.sender[i] = 1 /\ Q.temp[i] # {} THEN Groups(i, Q.temp[i], Q.ridof[i]) ELSE {})]
                /\ bad' = bad
           ELSE \* the time the backoff policy chose counts from the moment it was consulted
@@ -134,7 +139,9 @@ EvBounceEnq ==
 
 (* ------------------------------------------------------------------ flush, clock *)
 EvFlushCall == /\ E.t = "flush_call"
-               /\ Q' = [Q EXCEPT !.flushing = TRUE, !.flushed = Q.stored, !.sinceflush = {}, !.flushret = FALSE]
+               \* flush() is about what waits on the timetable: a message whose attempt has just failed and whose
+               \* bookkeeping is not finished is not there yet (it will be scheduled by that bookkeeping)
+               /\ Q' = [Q EXCEPT !.flushing = TRUE, !.flushed = {i \in Q.stored : Q.book[i] = "none"}, !.sinceflush = {}, !.flushret = FALSE]
                /\ bad' = bad
 EvFlushRet == /\ E.t = "flush_ret" /\ Q' = [Q EXCEPT !.flushing = FALSE, !.flushret = TRUE] /\ bad' = bad
 EvOther == /\ E.t \in {"advance", "enq_call", "enq_raised", "announce"} /\ Q' = Q /\ bad' = bad
